@@ -231,24 +231,34 @@ def Net.ofSv (pkg : Package) (top : Module) : Except String Net := do
       | some n => pure (IdType.bits n)
       | none => throw "no id_t"
   let routeBits := (findTypedef pkg.items "route_t").bind logicVecBits?
-  let some (_, samNum) := findParam pkg.items "SamNumRules" | throw "no SamNumRules"
-  let some samNumRules := exprNat? samNum | throw "SamNumRules not numeric"
-  let some samFields := findStruct pkg.items "sam_rule_t" | throw "no sam_rule_t"
-  let aw ←
-    match ((samFields.find? (·.2 == "start_addr")).map (·.1)).bind logicVecBits? with
-    | some w => pure w
-    | none => throw "sam_rule_t.start_addr has no width"
-  let some (samTy, samVal) := findParam pkg.items "Sam" | throw "no Sam"
-  let sam ←
-    match samVal with
-    | .pat fs =>
-      fs.mapM fun (k, e) =>
-        match k, exprRule? e with
-        | none, some r => pure r
-        | _, _ => throw "bad Sam entry"
-    | _ => throw "Sam is not a pattern"
-  let samDeclared := samTy.dims.length == 1 &&
-    (samTy.dims.head?.map fun (h, l) => h == Expr.sub (.ident "SamNumRules") (.num 1) && l == .num 0) == some true
+  -- `use_id_table: false`: the package carries a one-bit dummy `Sam` and no address map
+  let tableless := (findParam pkg.items "SamNumRules").isNone && (findParam pkg.items "NumSamRules").isSome &&
+    (findStruct pkg.items "sam_rule_t").isNone
+  let (aw, samNumRules, samDeclared, sam) ←
+    if tableless then
+      match findParam pkg.items "Sam" with
+      | some (_, .tick '0') => pure (0, 0, true, ([] : List Rule))
+      | _ => throw "table-less package without `Sam = '0`"
+    else do
+      let some (_, samNum) := findParam pkg.items "SamNumRules" | throw "no SamNumRules"
+      let some samNumRules := exprNat? samNum | throw "SamNumRules not numeric"
+      let some samFields := findStruct pkg.items "sam_rule_t" | throw "no sam_rule_t"
+      let aw ←
+        match ((samFields.find? (·.2 == "start_addr")).map (·.1)).bind logicVecBits? with
+        | some w => pure w
+        | none => throw "sam_rule_t.start_addr has no width"
+      let some (samTy, samVal) := findParam pkg.items "Sam" | throw "no Sam"
+      let sam ←
+        match samVal with
+        | .pat fs =>
+          fs.mapM fun (k, e) =>
+            match k, exprRule? e with
+            | none, some r => pure r
+            | _, _ => throw "bad Sam entry"
+        | _ => throw "Sam is not a pattern"
+      let samDeclared := samTy.dims.length == 1 &&
+        (samTy.dims.head?.map fun (h, l) => h == Expr.sub (.ident "SamNumRules") (.num 1) && l == .num 0) == some true
+      pure (aw, samNumRules, samDeclared, sam)
   let routingTables ←
     match findParam pkg.items "RoutingTables" with
     | none => pure none
